@@ -68,7 +68,7 @@ impl ScriptFormater {
 impl Formater for ScriptFormater {
     fn to_string(&self, e: Arc<ContextProps>) -> Result<String, Error> {
         let ctx = create_context(e);
-        self.0.value_of(ctx.into())?.try_into()
+        self.0.real_value_of(ctx.into())?.try_into()
     }
 }
 
